@@ -112,3 +112,11 @@ def c04(F, R, tier):
     mod.check(F, R)
     import c15
     c15.check(F, R)
+
+
+@prop("C17",
+      technique="static: writer tables extracted from the typed HIR of to_lp_format (sense, relation, section membership per VariableType, positional data-flow of bounds), sign/abs pairing, generated-name namespace rule",
+      explanation="Decides (T-SENSE) OptimizationType->Maximize/Minimize; (T-REL) Comparison-><=,>=,=; (T-SECTIONS) per VariableType: Boolean only under Binary, IntegerRange under General with a `min <= name <= max` bounds entry, reals with a bounds entry built by lp_bound in (min, name, max) order, `free` only under the (-inf,+inf) test, the entry omitted only for the default NonNegativeReal range; (NUM-SPELL) lp_bound spells +-infinity; (SIGN-SPLIT) every printed magnitude has its sign decided by an exact `< 0.0`; (NAME-NS) generated row labels are tested against user-written names. NOT decided: acceptance by an independent LP reader beyond these tables; finiteness of coefficients (C08).")
+def c17(F, R, tier):
+    import c17 as mod
+    mod.check(F, R)
